@@ -138,6 +138,42 @@ theorem smb_roundtrip (c : Cmd) (hmem : c ∈ commands) (hm : Mirror c = true) (
   simp only [Bool.not_true, Bool.false_or, List.all_eq_true, List.contains_iff_mem] at h
   exact h t ht
 
+/-! ## re-encoding -/
+
+/-- **C04, re-encoding (generic).**  Under the hypotheses of `mirror_roundtrip`, for a marshal program
+    of the `Reencodable` shape (each `SetBufferFormat` immediately before the `Marshal` of the same
+    field, no `c.F = len(c.G)`, only declared fields emitted) and codecs whose `Marshal` keeps the
+    buffer format just set (`LawfulFmt`): marshalling the decoded structure again yields the same bytes. -/
+theorem mirror_reencode {C : Codecs} {T F : String → Prop} (hC : LawfulCodecs C T) (hF : LawfulFmt C F) (c : Cmd)
+    (hm : Mirror c = true) (hre : Reencodable c = true) (hT : ∀ t ∈ c.subTypes, T t) (hFt : ∀ t ∈ c.fmtTypes, F t)
+    (env0 env : Env) (hc : consistent C c env = true) :
+    ∃ bs d, encodeCmd C c env = .ok bs ∧ decodeCmd C c env0 bs = .ok d ∧ encodeCmd C c d = .ok bs :=
+  mirror_reencode_core hC hF c hm hre hT hFt env0 env hc
+
+/-- `SMB_STRING.Marshal` keeps the buffer format `SetBufferFormat` has just set (the only nested type
+    a command sets a format on) -/
+theorem std_lawful_fmt : LawfulFmt Manticore.SmbCodecs.std (· = "SMB_STRING") :=
+  Manticore.SmbStd.std_lawful_fmt_core
+
+/-- every `Mirror` command of this tree has the `Reencodable` shape and sets buffer formats on
+    `SMB_STRING` fields only (decided on the regenerated programs) -/
+theorem mirror_reencodable :
+    commands.all (fun c => !Mirror c || (Reencodable c && c.fmtTypes.all (· == "SMB_STRING"))) = true := by
+  decide +kernel
+
+/-- **C04, re-encoding, for the regenerated commands**: for each of the 83 `Mirror` structures,
+    unmarshalling the bytes of a consistent structure and marshalling the result gives the same bytes. -/
+theorem smb_reencode (c : Cmd) (hmem : c ∈ commands) (hm : Mirror c = true) (env0 env : Env)
+    (hc : consistent Manticore.SmbCodecs.std c env = true) :
+    ∃ bs d, encodeCmd Manticore.SmbCodecs.std c env = .ok bs ∧ decodeCmd Manticore.SmbCodecs.std c env0 bs = .ok d ∧
+      encodeCmd Manticore.SmbCodecs.std c d = .ok bs := by
+  have h1 := List.all_eq_true.mp mirror_types_lawful c hmem
+  have h2 := List.all_eq_true.mp mirror_reencodable c hmem
+  rw [hm] at h1 h2
+  simp only [Bool.not_true, Bool.false_or, List.all_eq_true, List.contains_iff_mem, Bool.and_eq_true,
+    beq_iff_eq] at h1 h2
+  exact mirror_reencode std_lawful std_lawful_fmt c hm h2.1 h1 h2.2 env0 env hc
+
 /-! ### non-vacuity: a concrete command and concrete field values satisfy every hypothesis -/
 
 /-- `CloseRequest{FID: 0x1234, LastTimeModified: FILETIME{1, 2}}` -/
